@@ -38,12 +38,14 @@ def plan(seed, subbatch):
         spec = sample_spec(cfg, cfg.choice(pool) if pool else None, max_period=8)
         if tf:
             spec["common"]["timeframe"] = tf
+        if cfg.random() < 0.2:
+            spec["common"]["candlestick_type"] = "HA"
         members = [spec]
         hexcfg = None
     else:
         tfs = [None, None] + ([tf, tf] if tf else [])
         members = sample_members(cfg, cfg.randint(1, 3), tfs, max_period=8, classes=pool)
-        hexcfg = {}
+        hexcfg = {"candlestick_type": "HA"} if cfg.random() < 0.2 else {}
     n = planlib.pick_n(cfg, (3, 15), (10, 60), (30, 150))
     if subbatch == "calm":
         faults, burst = {}, None
